@@ -137,20 +137,24 @@ def check_form(run, S, name, spec, kw):
 
 
 def check_groups(run, S, h):
-    cv = Conv(S)
+    """K6: the spellings must compute the SAME term per component - compared structurally, identifying only
+    a+b with b+a and a*b with b*a (so x/s vs x*(1/s), which differ in rounding and for integers, do not agree)."""
+    from core import strict_leaves
     for base, forms, assign in h.groups:
-        sums = []
-        for f in forms:
-            sr = single_ret(run, S, f)
-            sums.append(sr)
+        sums = [single_ret(run, S, f) for f in forms]
         ref = sums[0]
         if ref is None:
             continue
-        refv = cv.val(ref[1]['v'])
+        refk = strict_leaves(S, ref[1]['v'])
+        cv = Conv(S)
+        reftxt = [S.showval(ref[1]['v'])[:300]]
         for f, sr in zip(forms[1:], sums[1:]):
             if sr is None:
                 continue
-            cmp_struct(run, S, '%s=%s' % (forms[0], f), cv.val(sr[1]['v']), refv, 'K6 sibling agreement: by-reference spelling equals the by-value spelling', where=sr[0].get('span'))
+            k = strict_leaves(S, sr[1]['v'])
+            bad = [i for i, (x, y) in enumerate(zip(k, refk)) if x != y] if len(k) == len(refk) else ['arity']
+            run.ob('%s:%s=%s' % (PROP, forms[0], f), not bad, rule='K6 sibling agreement: by-reference spelling computes the same term as the by-value spelling',
+                   expected=reftxt[0], found='components %s differ: %s' % (bad[:4], S.showval(sr[1]['v'])[:300]) if bad else 'identical', where=sr[0].get('span'))
         if assign is not None:
             sr = single_ret(run, S, assign)
             if sr is not None:
@@ -158,7 +162,10 @@ def check_groups(run, S, h):
                 if post is None:
                     run.ob('%s:%s:post' % (PROP, assign), False, rule='K6', expected='post-state of the receiver', found='absent')
                 else:
-                    cmp_struct(run, S, '%s=%s' % (forms[0], assign), cv.val(post), refv, 'K6 sibling agreement: a op= b leaves in a the value of a op b', where=sr[0].get('span'))
+                    k = strict_leaves(S, post)
+                    bad = [i for i, (x, y) in enumerate(zip(k, refk)) if x != y] if len(k) == len(refk) else ['arity']
+                    run.ob('%s:%s=%s' % (PROP, forms[0], assign), not bad, rule='K6 sibling agreement: a op= b leaves in a exactly the value of a op b',
+                           expected=reftxt[0], found='components %s differ: %s' % (bad[:4], S.showval(post)[:300]) if bad else 'identical', where=sr[0].get('span'))
 
 
 def check_left(run, S, name, spec, kw):
